@@ -194,6 +194,16 @@ func (target *TargetGeopackage) CreateTables(tables []Table) error {
 		if err != nil {
 			return err
 		}
+		// UpdateSRS only inserts: it leaves an srs alone that is already in the target,
+		// like the ones every new geopackage starts with (e.g. 4326 and 3857). Copy the source's over those.
+		_, err = target.handle.Exec(`UPDATE gpkg_spatial_ref_sys
+			SET srs_name = ?, organization = ?, organization_coordsys_id = ?, definition = ?, description = ?
+			WHERE srs_id = ?;`,
+			table.srs.Name, table.srs.Organization, table.srs.OrganizationCoordsysID, table.srs.Definition, table.srs.Description,
+			table.srs.ID)
+		if err != nil {
+			return err
+		}
 
 		err = buildTable(target.handle, table)
 		if err != nil {
